@@ -800,6 +800,60 @@ fn limit_scenario(id: usize, rng: &mut Rng) -> TraceResult {
             w.set_cti(w.ctis[1]); w.ledger(600_000, 0); w.verify(a2); w.set_cti(c0); w.ledger(600_000, 0); w.verify(a2);
             w.finish("long gaps: every stored item persists")
         }
+        4 => { // one update dropping several topics at once, add/drop mixes
+            let mut w = World::new(rng, &std_sizes());
+            let c0 = w.ctis[0];
+            let (i0, i1, i2) = (w.issuers[0], w.issuers[1], w.issuers[2]);
+            let d0 = w.idents[0]; let a0 = w.accounts[0];
+            fixture(&mut w, &[1, 2, 3, 4], &[(i0, std::vec![1, 2, 3, 4]), (i1, std::vec![1, 2, 3]), (i2, std::vec![4, 2])]);
+            for t in [1u32, 2, 3, 4] { let c = w.far_claim(d0, i0, t, 0); w.add_claim(d0, &c); }
+            let c = w.far_claim(d0, i1, 1, 1); w.add_claim(d0, &c); w.verify(a0);
+            w.update_issuer(c0, i0, &[3, 4]); w.verify(a0);          // drops 1 and 2: topic 1 is covered by i1, topic 2 by nobody
+            w.update_issuer(c0, i0, &[4, 1, 2, 3]); w.verify(a0);
+            w.update_issuer(c0, i0, &[4]); w.verify(a0);             // drops 1, 2, 3
+            let c = w.far_claim(d0, i1, 2, 1); w.add_claim(d0, &c); let c = w.far_claim(d0, i1, 3, 1); w.add_claim(d0, &c); w.verify(a0);
+            w.update_issuer(c0, i1, &[3]); w.verify(a0);             // drops 1 and 2 of i1
+            w.update_issuer(c0, i0, &[2, 1]); w.verify(a0);          // drops 4, adds 1 and 2
+            w.update_issuer(c0, i2, &[1, 3]); w.update_issuer(c0, i1, &[4, 2]); w.verify(a0);   // mixes
+            w.remove_issuer(c0, i0); w.verify(a0); w.remove_issuer(c0, i1); w.remove_issuer(c0, i2); w.verify(a0);
+            w.finish("issuer topic updates dropping several topics at once")
+        }
+        5 => { // an identity that serves, under the id of (issuer, required topic), a genuine claim for another topic
+            let mut w = World::new(rng, &std_sizes());
+            let (c0, c1) = (w.ctis[0], w.ctis[1]);
+            let i0 = w.issuers[0]; let d0 = w.idents[0]; let a0 = w.accounts[0];
+            fixture(&mut w, &[1], &[(i0, std::vec![1])]);
+            w.add_topic(c1, 2); w.add_issuer(c1, i0, &[2]);
+            let (pk, sc) = (w.keys[0].pk.clone(), w.keys[0].scheme); w.allow_key(i0, &pk, c1, sc, 2);
+            let g2 = w.far_claim(d0, i0, 2, 0);                     // genuine claim of i0 for topic 2
+            w.is_claim_valid(i0, d0, 2, g2.scheme, &g2.sig.clone(), &g2.data.clone());
+            w.force_claim(d0, i0, 1, 1, &g2); w.verify(a0);          // stored under the id of (i0, topic 1): must not satisfy topic 1
+            w.q_validate_claim(&g2, 1, i0, d0); w.q_validate_claim(&g2, 2, i0, d0);
+            let g1 = w.far_claim(d0, i0, 1, 0); w.force_claim(d0, i0, 1, 1, &g1); w.verify(a0);
+            w.add_topic(c0, 2); w.update_issuer(c0, i0, &[1, 2]); w.force_claim(d0, i0, 2, 2, &g1); w.verify(a0);   // and the other way round
+            w.force_claim(d0, i0, 2, 2, &g2); w.verify(a0);
+            w.finish("claims served under the id of another topic")
+        }
+        6 => { // per-topic issuer lists in every registration order, every issuer removed in turn
+            let mut w = World::new(rng, &std_sizes());
+            let (c0, c1) = (w.ctis[0], w.ctis[1]);
+            let is = [w.issuers[0], w.issuers[1], w.issuers[2]];
+            let d0 = w.idents[0]; let a0 = w.accounts[0];
+            fixture(&mut w, &[1], &[(is[2], std::vec![1]), (is[0], std::vec![1]), (is[1], std::vec![1])]);
+            w.add_topic(c1, 1);
+            for (n_, &i) in is.iter().enumerate() { let c = w.far_claim(d0, i, 1, (n_ + 1) % 3); w.add_claim(d0, &c); }
+            w.verify(a0);
+            let orders: [[usize; 3]; 6] = [[0, 1, 2], [0, 2, 1], [1, 0, 2], [1, 2, 0], [2, 0, 1], [2, 1, 0]];
+            w.remove_issuer(c0, is[2]); w.remove_issuer(c0, is[0]); w.verify(a0); w.remove_issuer(c0, is[1]); w.verify(a0);
+            for (n_, ord) in orders.iter().enumerate() {
+                let c = if n_ % 2 == 0 { c0 } else { c1 };
+                w.set_cti(c);
+                for &j in ord { w.add_issuer(c, is[j], &[1]); }
+                let rm = orders[(n_ * 5 + 1) % 6];
+                w.remove_issuer(c, is[rm[0]]); w.verify(a0); w.remove_issuer(c, is[rm[1]]); w.verify(a0); w.remove_issuer(c, is[rm[2]]); w.verify(a0);
+            }
+            w.finish("issuer lists in every registration order")
+        }
         _ => { // MAX_REGISTRIES_PER_KEY: 22 (topic, registry) pairs for one key
             let sz = Sizes { ctis: 2, irss: 1, idents: 1, issuers: 1, bogus: 0, accounts: 1, topics: (1..=11).collect(), keys_per_scheme: 1 };
             let mut w = World::new(rng, &sz);
@@ -813,7 +867,7 @@ fn limit_scenario(id: usize, rng: &mut Rng) -> TraceResult {
         }
     }
 }
-const NLIMITS: usize = 4;
+const NLIMITS: usize = 7;
 
 fn scenario(id: usize, rng: &mut Rng) -> TraceResult {
     let sz = if id == 6 { Sizes { ctis: 1, irss: 1, idents: 1, issuers: 1, bogus: 1, accounts: 1, topics: (101..=116).collect(), keys_per_scheme: 1 } } else { std_sizes() };
@@ -939,10 +993,11 @@ fn random_trace(idx: usize, rng: &mut Rng, thorough: bool) -> TraceResult {
     let rich = rng.chance(4, 5);
     if rich {
         let c0 = ctis[0];
-        let req = { let mut s = subset(rng, &topics[..3], 1, 2); if s.is_empty() { s.push(1); } s };
+        let req = { let mut s = subset(rng, &topics[..topics.len() - 1], 2, 3); if s.is_empty() { s.push(1); } s };
         for &t in &req { w.add_topic(c0, t); }
         if rng.chance(1, 3) { w.add_topic(ctis[1], *rng.pick(&topics)); }
-        for &i in &iaddrs { if rng.chance(3, 4) { let mut ts = subset(rng, &req, 2, 3); if ts.is_empty() { ts.push(req[0]); } w.add_issuer(c0, i, &ts); } }
+        let mut order = iaddrs.clone(); for j in (1..order.len()).rev() { let k2 = rng.below(j as u64 + 1) as usize; order.swap(j, k2); }
+        for &i in &order { if rng.chance(3, 4) { let mut ts = if rng.chance(1, 2) { req.clone() } else { subset(rng, &req, 2, 3) }; if ts.is_empty() { ts.push(req[0]); } w.add_issuer(c0, i, &ts); } }
         for &i in &issuers { for _ in 0..(1 + rng.below(2)) { let k = rng.below(nkeys as u64) as usize; let (pk, sc) = (w.keys[k].pk.clone(), w.keys[k].scheme);
             for &t in &req { if rng.chance(3, 4) { w.allow_key(i, &pk, c0, sc, t); } } } }
         for (n_, &a) in accounts.iter().enumerate() { if rng.chance(4, 5) { let d = if rng.chance(9, 10) { idents[n_ % idents.len()] } else { *rng.pick(&daddrs) }; w.add_identity(irss[0], a, d, 1 + rng.below(3) as u32); } }
@@ -970,6 +1025,14 @@ fn random_trace(idx: usize, rng: &mut Rng, thorough: bool) -> TraceResult {
             6..=9 => { w.remove_topic(c, t); }
             10..=16 => { let ts = match rng.below(8) { 0 => std::vec![], 1 => std::vec![t, t], 2 => std::vec![t, 9], _ => { let cur: std::vec::Vec<u32> = w.cti(c).get_claim_topics().iter().collect(); let mut s = subset(rng, &cur, 1, 2); if s.is_empty() { s.push(t); } s } }; w.add_issuer(c, i, &ts); }
             17..=20 => { w.remove_issuer(c, i); }
+            21..=27 if rng.chance(1, 2) => {
+                let cur: std::vec::Vec<u32> = w.cti(c).try_get_trusted_issuer_claim_topics(w.a(i)).ok().and_then(|r| r.ok()).map(|v| v.iter().collect()).unwrap_or_default();
+                let all: std::vec::Vec<u32> = w.cti(c).get_claim_topics().iter().collect();
+                let mut ts: std::vec::Vec<u32> = if cur.len() >= 2 { let keep = 1 + rng.below(if cur.len() >= 3 { 2 } else { 1 }) as usize; let start = rng.below(cur.len() as u64) as usize; (0..keep).map(|j| cur[(start + j) % cur.len()]).collect() } else { cur.clone() };
+                if rng.chance(1, 3) { for &x in &all { if !cur.contains(&x) && rng.chance(1, 2) { ts.push(x); } } }
+                if ts.is_empty() { ts.push(t); }
+                ts.dedup(); w.update_issuer(c, i, &ts);
+            }
             21..=27 => { let ts = match rng.below(8) { 0 => std::vec![], 1 => std::vec![t, t], 2 => std::vec![9], _ => { let cur: std::vec::Vec<u32> = w.cti(c).get_claim_topics().iter().collect(); let mut s = subset(rng, &cur, 1, 2); if s.is_empty() { s.push(t); } s } }; w.update_issuer(c, i, &ts); }
             28..=30 => { let r = if rng.chance(4, 5) { irss[0] } else { irss[1] }; w.add_identity(r, a, *rng.pick(&daddrs), match rng.below(10) { 0 => 0, 1 => 16, 2 => 15, _ => 1 }); }
             31..=32 => { w.modify_identity(irss[0], a, *rng.pick(&daddrs)); }
@@ -994,7 +1057,7 @@ fn random_trace(idx: usize, rng: &mut Rng, thorough: bool) -> TraceResult {
                 let (ii, kk, tt) = if rng.chance(5, 6) { w.allowed_combo(rng).unwrap_or((ri, k, t)) } else { (if rng.chance(9, 10) { ri } else { i }, k, t) };
                 let mut cl = w.make_claim(rng, d, ii, tt, kk, df);
                 let (mut id_i, mut id_t, mut ix_t) = (ii, tt, tt);
-                match rng.below(12) { 0 => { cl.topic = *rng.pick(&topics); } 1 => { cl.issuer = *rng.pick(&iaddrs); } 2 => { ix_t = *rng.pick(&topics); } 3 => { id_i = *rng.pick(&iaddrs); } 4 => { id_t = *rng.pick(&topics); } _ => {} }
+                match rng.below(14) { 12 | 13 => { let ot = *rng.pick(&topics); id_t = ot; ix_t = ot; } 0 => { cl.topic = *rng.pick(&topics); } 1 => { cl.issuer = *rng.pick(&iaddrs); } 2 => { ix_t = *rng.pick(&topics); } 3 => { id_i = *rng.pick(&iaddrs); } 4 => { id_t = *rng.pick(&topics); } _ => {} }
                 w.force_claim(d, id_i, id_t, ix_t, &cl); w.label(&format!("forced/{}", defect_name(df)));
                 held.push((d, id_i, id_t, cl));
             }
